@@ -2,6 +2,7 @@ import MxModel.Proofs.PathCodec
 import MxModel.Proofs.DocQuote
 import MxModel.Kernels.Dispatch
 import MxModel.Proofs.SaveFiles
+import MxModel.Proofs.SerialOrder
 /-!
 # C04 – Write/read round trip: the two codecs the serializer relies on
 
@@ -472,5 +473,250 @@ example : selectDecoder "DataSpec" = some ("IOSpecDecoder", "IOSpec") := by deci
 example : selectDecoder "NoSuchTag" = some ("LiteralDecoder", "") := by decide +kernel
 example : callStep "read_pickledata" = some 3 ∧ methodStep "load_pickledata" = some 4 := by decide
 example : phaseOf "_set_dynamic_inputs" = some 4 := by decide
+
+/-! ## The writer and the reader: `read (write m) = m`
+
+`Kernels/Serial.lean` is `ModelWriter` at the level of statements: a model description `MDesc` (name,
+documentation, `allow_none`, references of the model; per space: documentation, `allow_none`, direct bases,
+parameter formula, defined cells with formula text / flags / documentation / input values, defined references
+with value kind and mode, inputs inside ItemSpaces, child spaces) is written to one `__init__.py` per space -
+the list of logical statements `SpaceEncoder` / `CellsEncoder` / `RefViewEncoder` emit - plus the `_data`
+files by name and pickle ids.  `Kernels/SerialRead.lean` is `ModelReader`: `ParserSelector` / `DecoderSelector`
+in the order of `Generated.parserClasses` / `decoderClasses`, the look-ahead of the cells parsers, the
+deferred instructions executed in the phases of `Generated.readerPhases`, with the checks of the real
+`add_bases` / `set_ref` that can fail.  A reordering of the selectors or of the phases in `serializer_6.py`
+changes the regenerated tables and these theorems are re-checked against it.
+
+`WellFormed` is what every model built through the API satisfies (unique names per container, valid names,
+bases and targets of object-valued references exist, a lambda text starts with `lambda`).  `Hk` excludes the
+recorded findings of C04, one named hypothesis each (`Kernels/SerialWF.lean`); below, every one of them is
+shown to be needed by a kernel-checked witness. -/
+
+section SerialRoundTrip
+open MxModel.Serial
+
+/-- **Write/read round trip, every model description of any size and depth.**  Reading what the writer
+wrote succeeds and gives back the description: same space tree, direct bases, parameter formulas, cells
+(formula text, `allow_none`, cached flag, documentation), references (value, mode, object-valued references
+pointing at the same paths), documentation strings, input values including those inside ItemSpaces.
+`_partial`: the hypotheses `Hk` are the known findings C04-refmode-noninterface, -derived-input,
+-def-text-outside-node, -doc-section-marker, -ref-override-order, -relref-override-order and -bases-order. -/
+theorem read_write_round_trip_partial (m : MDesc) (hwf : WellFormed m) (hk : Hk m) :
+    Serial.read (Serial.write m) = .ok m :=
+  read_write m hwf hk
+
+/-- the `log_input` option adds a file the reader never opens -/
+theorem read_write_round_trip_log_input_partial (m : MDesc) (hwf : WellFormed m) (hk : Hk m) :
+    Serial.read (writeWith true m) = .ok m := by
+  have h := read_write m hwf hk
+  unfold Serial.read parseModel at h ⊢
+  simpa [Serial.write, writeWith, Dir.init, Dir.data, Dir.subs, Dir.depth] using h
+
+/-- two descriptions that are written to the same files are the same description -/
+theorem write_injective_partial (m m' : MDesc) (hwf : WellFormed m) (hk : Hk m) (hwf' : WellFormed m')
+    (hk' : Hk m') (h : Serial.write m = Serial.write m') : m = m' := by
+  have a := read_write m hwf hk
+  rw [h, read_write m' hwf' hk'] at a
+  exact (Except.ok.inj a).symm
+
+/-- a written model that is read and written again gives the same files -/
+theorem write_read_write_partial (m m' : MDesc) (hwf : WellFormed m) (hk : Hk m)
+    (h : Serial.read (Serial.write m) = .ok m') : Serial.write m' = Serial.write m := by
+  rw [read_write m hwf hk] at h
+  rw [Except.ok.inj h]
+
+/-- **which files exist**: exactly one `__init__.py` for the model and one per space, at the path of the
+space, in tree order; below `_data/`: the model's pickle tables, and per space one file per cells that holds
+input values and `_dynamic_inputs` if an ItemSpace holds one - nothing else (the entry names
+`Kernels/SaveFiles.lean` speaks about). -/
+theorem files_of_write (logInput : Bool) (m : MDesc) :
+    (writeWith logInput m).initPaths [] = [] :: spacesPaths [] m.spaces ∧
+    (writeWith logInput m).dataPaths [] =
+      (modelData m).map (fun d => (([] : Serial.Path), d.1)) ++
+        (infosOfL [] m.spaces).flatMap (fun e => (dataNames e.2).map (fun n => (own e, n))) ∧
+    (writeWith logInput m).other = fSystem :: (if logInput then [fInputLog] else []) := by
+  refine ⟨?_, ?_, rfl⟩
+  · simp [writeWith, Dir.initPaths, initPathsL_writeSpaces]
+  · simp [writeWith, Dir.dataPaths, dataPathsL_writeSpaces]
+
+/-- `data.pickle` exists exactly when some value is pickled, and then lists exactly the ids in use -/
+theorem pickle_table_of_write (m : MDesc) :
+    pickleTable (Serial.write m).data = pickleIds m := pickleTable_modelData m
+
+/-! ### a concrete model: two spaces, a base, lambda and def cells, object-valued references in two modes, a
+pickled input value, an input inside an ItemSpace, a child space -/
+
+def exFoo : CellsD := ⟨"foo".toList, .lambda "lambda x: x + 1".toList, some true, false, some "doc of foo".toList,
+  [("1".toList, "2".toList)]⟩
+def exBar : CellsD := ⟨"bar".toList, .defn "def bar(x):\n    return 2 * x".toList "def bar(x):\n    return 2 * x".toList,
+  none, true, none, []⟩
+def exA : SpaceD := .mk ⟨"A".toList, some "space A".toList, some false, none, [], [exFoo, exBar],
+  [⟨"k".toList, .literal "3".toList, .auto⟩, ⟨"p".toList, .pickled "7".toList, .auto⟩], [], []⟩ []
+def exC : SpaceD := .mk ⟨"C".toList, none, none, none, [], [],
+  [⟨"u".toList, .interface ["B".toList], .relative⟩], [], []⟩ []
+def exB : SpaceD := .mk ⟨"B".toList, none, none, some (.lambda "lambda i: None".toList), [["A".toList]], [],
+  [⟨"t".toList, .interface ["A".toList, "foo".toList], .absolute⟩],
+  [⟨[.key "9".toList, .str "foo".toList], "1".toList, "2".toList⟩], []⟩ [exC]
+def exModel : MDesc := ⟨"M".toList, some "the model".toList, false, [("gk".toList, .literal "5".toList)], [exA, exB]⟩
+
+example : WellFormed exModel := by decide +kernel
+example : Hk exModel := by decide +kernel
+example : Serial.read (Serial.write exModel) = .ok exModel :=
+  read_write_round_trip_partial exModel (by decide +kernel) (by decide +kernel)
+/-- the same by evaluation of writer and reader -/
+example : Serial.read (Serial.write exModel) = .ok exModel := by decide +kernel
+example : Serial.read (writeWith true exModel) = .ok exModel :=
+  read_write_round_trip_log_input_partial exModel (by decide +kernel) (by decide +kernel)
+example : ((Serial.write exModel).initPaths []).length = 4 := by decide +kernel
+example : (Serial.write exModel).initPaths [] = [[], ["A".toList], ["B".toList], ["B".toList, "C".toList]] :=
+  (files_of_write false exModel).1
+example : (Serial.write exModel).dataPaths [] =
+    [([], "data.pickle".toList), (["A".toList], "foo".toList), (["B".toList], "_dynamic_inputs".toList)] := by
+  decide +kernel
+example : pickleTable (Serial.write exModel).data = ["7", "1", "2", "1", "2", "9"].map String.toList := by
+  decide +kernel
+/-- the hypotheses of `write_injective_partial` hold for two different descriptions, and their files differ -/
+example : Serial.write exModel ≠ Serial.write { exModel with allowNone := true } := fun h => by
+  have := write_injective_partial exModel { exModel with allowNone := true } (by decide +kernel)
+    (by decide +kernel) (by decide +kernel) (by decide +kernel) h
+  revert this; decide +kernel
+example : Serial.write exModel = Serial.write exModel :=
+  write_read_write_partial exModel exModel (by decide +kernel) (by decide +kernel) (by decide +kernel)
+/-- the statements of `B/__init__.py` as the model writes them -/
+example : (Serial.write exModel).subs.map (fun d => d.init.map List.length) = [some 15, some 7] := by
+  decide +kernel
+
+/-! ### every hypothesis of `Hk` is needed (the recorded findings, in the model) -/
+
+def exSpace (name : String) (bases : List Serial.Path) (refs : List RefD) (kids : List SpaceD := []) : SpaceD :=
+  .mk ⟨name.toList, none, none, none, bases, [], refs, [], []⟩ kids
+
+/-- what a witness has to show: well-formed, all OTHER hypotheses hold, and the round trip fails -/
+def RoundTripFails (m : MDesc) : Prop := WellFormed m ∧ Serial.read (Serial.write m) ≠ .ok m
+
+/-- C04-refmode-noninterface: `set_ref("k", 3, "absolute")` comes back `auto` -/
+def exRefMode : MDesc := ⟨"M".toList, none, false, [], [exSpace "A" [] [⟨"k".toList, .literal "3".toList, .absolute⟩]]⟩
+theorem refmode_noninterface_full_statement_fails :
+    ¬ ∀ m, WellFormed m → NoDerivedInputs m → DefTextIsNode m → NoMarkerInText m → NoBasesOrderConflict m →
+      NoRefOverrideOrder m → NoRelRefOverrideOrder m → Serial.read (Serial.write m) = .ok m := fun h =>
+  absurd (h exRefMode (by decide +kernel) (by decide +kernel) (by decide +kernel) (by decide +kernel)
+    (by decide +kernel) (by decide +kernel) (by decide +kernel)) (by decide +kernel)
+example : ¬ RefModesWritten exRefMode := by decide +kernel
+example : Serial.read (Serial.write exRefMode) =
+    .ok ⟨"M".toList, none, false, [], [exSpace "A" [] [⟨"k".toList, .literal "3".toList, .auto⟩]]⟩ := by decide +kernel
+
+/-- C04-derived-input: an input value of an inherited cells is not written -/
+def exDerivedInput : MDesc := ⟨"M".toList, none, false, [],
+  [.mk ⟨"A".toList, none, none, none, [], [⟨"foo".toList, .lambda "lambda x: x".toList, none, true, none, []⟩], [], [], []⟩ [],
+   .mk ⟨"B".toList, none, none, none, [["A".toList]], [], [], [], [("foo".toList, [("1".toList, "2".toList)])]⟩ []]⟩
+theorem derived_input_full_statement_fails :
+    ¬ ∀ m, WellFormed m → RefModesWritten m → DefTextIsNode m → NoMarkerInText m → NoBasesOrderConflict m →
+      NoRefOverrideOrder m → NoRelRefOverrideOrder m → Serial.read (Serial.write m) = .ok m := fun h =>
+  absurd (h exDerivedInput (by decide +kernel) (by decide +kernel) (by decide +kernel) (by decide +kernel)
+    (by decide +kernel) (by decide +kernel) (by decide +kernel)) (by decide +kernel)
+example : ¬ NoDerivedInputs exDerivedInput := by decide +kernel
+
+/-- C04-def-text-outside-node: a comment line after the last statement of a `def` is dropped -/
+def exDefText : MDesc := ⟨"M".toList, none, false, [],
+  [.mk ⟨"A".toList, none, none, none, [],
+    [⟨"dd".toList, .defn "def dd(x):\n    return x\n# c\n".toList "def dd(x):\n    return x\n".toList, none, true, none, []⟩],
+    [], [], []⟩ []]⟩
+theorem def_text_outside_node_full_statement_fails :
+    ¬ ∀ m, WellFormed m → RefModesWritten m → NoDerivedInputs m → NoMarkerInText m → NoBasesOrderConflict m →
+      NoRefOverrideOrder m → NoRelRefOverrideOrder m → Serial.read (Serial.write m) = .ok m := fun h =>
+  absurd (h exDefText (by decide +kernel) (by decide +kernel) (by decide +kernel) (by decide +kernel)
+    (by decide +kernel) (by decide +kernel) (by decide +kernel)) (by decide +kernel)
+example : ¬ DefTextIsNode exDefText := by decide +kernel
+
+/-- C04-doc-section-marker: the divider line followed by `# Cells` inside a space's documentation moves the
+space's `_allow_none` into the cells section, where it is ignored -/
+def exMarker : MDesc := ⟨"M".toList, none, false, [],
+  [.mk ⟨"A".toList, some ("first\n".toList ++ dividerLine ++ "\n# Cells\nlast".toList), some true, none, [], [], [], [], []⟩ []]⟩
+theorem doc_section_marker_full_statement_fails :
+    ¬ ∀ m, WellFormed m → RefModesWritten m → NoDerivedInputs m → DefTextIsNode m → NoBasesOrderConflict m →
+      NoRefOverrideOrder m → NoRelRefOverrideOrder m → Serial.read (Serial.write m) = .ok m := fun h =>
+  absurd (h exMarker (by decide +kernel) (by decide +kernel) (by decide +kernel) (by decide +kernel)
+    (by decide +kernel) (by decide +kernel) (by decide +kernel)) (by decide +kernel)
+example : ¬ NoMarkerInText exMarker := by decide +kernel
+example : (Serial.read (Serial.write exMarker)).map (fun r => r.spaces.map (fun s => s.info.allowNone)) = .ok [none] := by
+  decide +kernel
+
+/-- C04-bases-order (found with this model): `S0; S1(S0); S2(S1, S4); S3(S2, S4, S0); S4(S0)` has a C3
+linearisation for every space, but not while `S4` is still without its base - and the reader adds the bases in
+tree order -/
+def exBasesOrder : MDesc := ⟨"M".toList, none, false, [],
+  [exSpace "S0" [] [], exSpace "S1" [["S0".toList]] [], exSpace "S2" [["S1".toList], ["S4".toList]] [],
+   exSpace "S3" [["S2".toList], ["S4".toList], ["S0".toList]] [], exSpace "S4" [["S0".toList]] []]⟩
+theorem bases_order_full_statement_fails :
+    ¬ ∀ m, WellFormed m → RefModesWritten m → NoDerivedInputs m → DefTextIsNode m → NoMarkerInText m →
+      NoRefOverrideOrder m → NoRelRefOverrideOrder m → Serial.read (Serial.write m) = .ok m := fun h =>
+  absurd (h exBasesOrder (by decide +kernel) (by decide +kernel) (by decide +kernel) (by decide +kernel)
+    (by decide +kernel) (by decide +kernel) (by decide +kernel)) (by decide +kernel)
+example : ¬ NoBasesOrderConflict exBasesOrder := by decide +kernel
+example : Serial.read (Serial.write exBasesOrder) = .error .basesOrder := by decide +kernel
+/-- the complete graph is fine: every space has a linearisation -/
+example : allMro (ctxOf exBasesOrder) (baseDefs exBasesOrder) = true := by decide +kernel
+/-- and with `S4` before `S3` in the tree the same model is read back -/
+example : Hk ⟨"M".toList, none, false, [],
+  [exSpace "S0" [] [], exSpace "S1" [["S0".toList]] [], exSpace "S2" [["S1".toList], ["S4".toList]] [],
+   exSpace "S4" [["S0".toList]] [], exSpace "S3" [["S2".toList], ["S4".toList], ["S0".toList]] []]⟩ := by
+  decide +kernel
+
+/-- C04-ref-override-order: `A(B)`, both define `k`, `A` first in the tree: `B.k` is created while the sub
+space `A` already has the name -/
+def exRefOverride : MDesc := ⟨"M".toList, none, false, [],
+  [exSpace "A" [["B".toList]] [⟨"k".toList, .literal "1".toList, .auto⟩], exSpace "B" [] [⟨"k".toList, .literal "2".toList, .auto⟩]]⟩
+theorem ref_override_order_full_statement_fails :
+    ¬ ∀ m, WellFormed m → RefModesWritten m → NoDerivedInputs m → DefTextIsNode m → NoMarkerInText m →
+      NoBasesOrderConflict m → NoRelRefOverrideOrder m → Serial.read (Serial.write m) = .ok m := fun h =>
+  absurd (h exRefOverride (by decide +kernel) (by decide +kernel) (by decide +kernel) (by decide +kernel)
+    (by decide +kernel) (by decide +kernel) (by decide +kernel)) (by decide +kernel)
+example : ¬ NoRefOverrideOrder exRefOverride := by decide +kernel
+example : Serial.read (Serial.write exRefOverride) = .error .refConflict := by decide +kernel
+/-- the base first: fine -/
+example : Hk ⟨"M".toList, none, false, [],
+  [exSpace "B" [] [⟨"k".toList, .literal "2".toList, .auto⟩], exSpace "A" [["B".toList]] [⟨"k".toList, .literal "1".toList, .auto⟩]]⟩ := by
+  decide +kernel
+
+/-- C04-relref-override-order: `A.k` is a `relative` reference to `Z` (outside `A`), `B(A)` overrides `k`,
+`A` first in the tree: `A.k` is created while `B` has no definition of its own yet -/
+def exRelRef : MDesc := ⟨"M".toList, none, false, [],
+  [exSpace "A" [] [⟨"k".toList, .interface ["Z".toList], .relative⟩],
+   exSpace "B" [["A".toList]] [⟨"k".toList, .literal "2".toList, .auto⟩], exSpace "Z" [] []]⟩
+theorem relref_override_order_full_statement_fails :
+    ¬ ∀ m, WellFormed m → RefModesWritten m → NoDerivedInputs m → DefTextIsNode m → NoMarkerInText m →
+      NoBasesOrderConflict m → NoRefOverrideOrder m → Serial.read (Serial.write m) = .ok m := fun h =>
+  absurd (h exRelRef (by decide +kernel) (by decide +kernel) (by decide +kernel) (by decide +kernel)
+    (by decide +kernel) (by decide +kernel) (by decide +kernel)) (by decide +kernel)
+example : ¬ NoRelRefOverrideOrder exRelRef := by decide +kernel
+example : Serial.read (Serial.write exRelRef) = .error .relRefConflict := by decide +kernel
+
+/-- a closed form that implies `NoRefOverrideOrder`, whatever the order of the spaces in the tree: along the
+lineage of every space (the space and its bases) every reference name has at most one definer -/
+theorem no_ref_twice_in_lineage_suffices (m : MDesc) (hkeys : (refKeys m).Nodup)
+    (h : noRefTwiceInLineage m = true) : NoRefOverrideOrder m :=
+  refsPass_of_noRefTwice m hkeys h [] (refDefs m) rfl
+example : (refKeys exModel).Nodup ∧ noRefTwiceInLineage exModel = true := by decide +kernel
+example : NoRefOverrideOrder exModel := no_ref_twice_in_lineage_suffices exModel (by decide +kernel) (by decide +kernel)
+/-- the witness of the finding has two definers of `k` in the lineage of `A` -/
+example : noRefTwiceInLineage exRefOverride = false := by decide +kernel
+
+/-- the full statement (no hypothesis beyond well-formedness) is false -/
+theorem read_write_round_trip_full_statement_fails :
+    ¬ ∀ m, WellFormed m → Serial.read (Serial.write m) = .ok m := fun h =>
+  absurd (h exBasesOrder (by decide +kernel)) (by decide +kernel)
+
+/-! ### the order of the source matters: what the theorems above rest on in the regenerated tables -/
+
+/-- the selectors as the proofs use them (a reordering in `serializer_6.py` fails here first) -/
+theorem selector_orders_as_modelled :
+    parserOrder = [.docstring, .importFrom, .rename, .lambdaAssign, .attrAssign, .refAssign, .spaceFuncDef,
+      .cellsFuncDef] ∧
+    decoderOrder = [.interface, .iospec, .module, .pickle, .literal] ∧ phaseChecks = true ∧
+    (Op.dynInput [] [] []).phase = some 4 ∧ (Op.setRef [] (.literal []) []).phase = some 3 ∧
+    (Op.addBases []).phase = some 1 :=
+  ⟨parserOrder_eq, decoderOrder_eq, phaseChecks_eq, phase_dynInput _ _ _, phase_setRef _ _ _, phase_addBases _⟩
+
+end SerialRoundTrip
 
 end MxModel.C04
